@@ -16,6 +16,15 @@ def codec(family, count, profile="debug", extra=None, label=None, timeout=1500, 
     return j
 
 
+def thread(count, profile="debug", extra=None, label=None, timeout=1500, shards=None, miriflags=None):
+    j = {"bin": "threadrun", "args": (extra or []), "count": count, "profile": profile, "label": label or ("thread-" + profile), "timeout": timeout}
+    if shards:
+        j["shards"] = shards
+    if miriflags:
+        j["miriflags"] = miriflags
+    return j
+
+
 COMMON_ASSUME = [
     "only executions that were generated are judged (seeded PRNG over programs, configurations, chunkings, schedules)",
     "the independent frame parser / reference HPACK decoder written for the harness are correct (cross-checked against RFC 7541 Appendix C and libnghttp2 in selftest)",
@@ -176,5 +185,15 @@ PLANS = {
         "require_stats": {"quick": {"ending.CutEof": 500, "ending.CutReset": 500, "ending.DropClientConn": 500, "ending.DropServerConn": 500, "ending.AbruptShutdown": 500, "ending.GracefulShutdown": 500, "probe_requests": 1000, "complete_before_ending": 200}, "thorough": {"exhaustive_sweep_points": 10000}},
         "exhaustive_note": "thorough tier only: for base scenarios of <= 600 world steps every step x every ending kind is enumerated (exhaustive_sweep_points); everything else is sampled",
         "assumptions": COMMON_ASSUME + ["abrupt_shutdown is exempt from 'complete messages are still delivered' (its documented contract is that outstanding streams are not handled)", "crash points are scheduler steps of the deterministic world, which include every byte-delivery and every task poll of that execution"],
+    },
+    "C20": {
+        "rule": "threaded engine: real OS threads on the real library - one thread polls the client connection, one the server connection, every stream's client side (poll_ready, send_request, reserve_capacity/poll_capacity, send_data, send_reset, response and body reads, release_capacity, handle drops) and every accepted stream's server side run on their own threads, further threads hammer clone/poll_ready/drop on the request handle and send_ping/poll_pong on the ping handle; windows from 1 byte, frame sizes, send buffers, concurrency limits, transport chunking (1 byte .. whole buffer, transient Pending) and random yields/spins/sleeps are PRNG-drawn per execution. The transport records every write and read with a sequence number from one relaxed atomic (the monitor adds no happens-before edge); after joining, the wire history is rebuilt and judged by the same wire oracles as in the simulator (flow-control accountant, life-cycle automaton, concurrency, frame size, acknowledgement bookkeeping, reset counting), hook-H2 snapshot invariants are evaluated by both connection threads after every poll, bodies are position-coded and checked end to end, every stream that nobody reset or dropped must complete cleanly when both connections ended Ok, a second send_ping before the pong must be refused, any panic / PoisonError in any thread is a violation, and a watchdog (no progress counter change for 30 s) dumps all stacks with gdb: two or more h2 frames waiting on a lock = deadlock violation, otherwise inconclusive. Layers: plain debug build; ThreadSanitizer build (-Zsanitizer=thread -Zbuild-std; data races and lock-order inversions, halt_on_error, report = violation); Miri (-Zmiri-many-seeds over a small 1-2 stream variant: data-race detector, weak-memory emulation, UB). Non-trivial iff every stream thread returned and the run was not aborted; distinct by wire fingerprint + event count.",
+        "quick": [thread(480, extra=["--watchdog", "30"]), thread(320, profile="tsan", extra=["--watchdog", "60"]), thread(1, profile="miri", shards=1, extra=["--small", "--watchdog", "3000"], miriflags="-Zmiri-many-seeds=0..8", timeout=3000)],
+        "thorough": [thread(40000, extra=["--watchdog", "30"]), thread(16000, profile="tsan", extra=["--watchdog", "60"]), thread(6, profile="miri", shards=2, extra=["--small", "--watchdog", "3000"], miriflags="-Zmiri-many-seeds=0..32", timeout=20000)],
+        "min_nontrivial": {"quick": 300, "thorough": 5000},
+        "require_stats": {"quick": {"threads.streams_completed_clean": 500, "threads.user_pings_completed": 200, "threads.chaos_ops": 5000, "snapshots": 100000, "client.data_frames_judged": 20000}, "thorough": {}},
+        "evidence_stats": ["threads", "snapshots", "conn_polls", "bytes_written", "data_frames_judged", "sanitizer", "frames."],
+        "technique": "runtime monitoring under real concurrency: multi-threaded stress of the real library with wire/state/end-to-end oracles, ThreadSanitizer, Miri (data-race detector and UB interpreter), deadlock watchdog",
+        "assumptions": COMMON_ASSUME + ["'every interleaving' is restated as: every execution produced by the free-running multi-threaded workloads (OS scheduler, random yields/spins/sleeps, Miri's seeded scheduler) satisfies the interleaving-independent oracles, and no race / lock-order / UB report is raised; interleavings the schedulers never produced are not covered", "'equivalent to some sequential order' is judged through its observable consequences (wire and API oracles that do not depend on the interleaving, exactly-once for user pings), not by a general linearizability search", "ThreadSanitizer sees only synchronisation it intercepts (std Mutex/Condvar/atomics are instrumented via -Zbuild-std); Miri runs a 1-2 stream variant because of its slowdown"],
     },
 }
